@@ -54,6 +54,12 @@ def env_const_of(du, v, depth=0):
                     return r
     if v[0] in ("cast", "unop"):
         return env_const_of(du, v[2], depth + 1)
+    if v[0] == "aggregate":
+        # `Some(value)` / `Ok(value)` built by a helper that wraps env::var
+        for a in v[3]:
+            r = env_const_of(du, a, depth + 1)
+            if r:
+                return r
     return None
 
 
